@@ -9,7 +9,9 @@ reads every encoding back with every API, places variants of types outside the c
 and asks derived structs for bodies of other signatures. The Param tree is built three ways - enum literals (P), the public
 conversion API of params/conversion.rs and params/container_constructors.rs (C: From<T>/From<&T>, TryFrom for Container,
 make_* / push / insert) and the borrowed flavours (R: *Ref variants through make_*_ref) - and decoded Params are read back
-through TryFrom<&Base> / as_* / into_* / From<&Param> (X); the model treats all of these as the identity on the abstract
+through TryFrom<&Base> / as_* / into_* / From<&Param> (X); arrays of every fixed-size primitive (u8 i16 u16 i32 u32 i64 u64 f64) go as raw
+slices (Vec<E>, &[E], [E; N], Cow<[E]>: the valid_slice() memory-copy path in the native byte order, the element loop in the other) through
+the struct shapes of the harness's `slices` list and the enum set E6, in both byte orders, against the Param tree, which has no such path; the model treats all of these as the identity on the abstract
 value, so C and R are compared with the model's P and X with the model's get_param. Enum set E3 has cases whose signatures
 have 255, 256 and 320 bytes: beyond 255 every API must refuse alike (fix dec59e1). Each output line is compared with the extracted model
 (ocaml/c16, from coq/Wire/C16Ops.v) and - independently of the model - the property predicate is evaluated on the
@@ -421,6 +423,10 @@ def make_cases(ctx, listing, thorough):
     shapes = listing["shapes"].split(",")
     others = listing["others"].split(",")
     sets = {"E1": listing["E1"], "E2": listing["E2"]}
+    gaps = arity_gaps(shapes, others)
+    if gaps:
+        raise vlib.BrokenTie("c16 generator: no HS body one field longer / shorter than the shapes of arity " + ", ".join(gaps),
+                             "add the struct types to OTHERS / with_other! in harness/src/bin/c16.rs")
     cases = [{"op": "CF", "bo": "le", "toks": []}]
     # every conversion of a Base value, boundary values of every base type, both construction flavours
     for mode in "CR":
@@ -462,6 +468,23 @@ def make_cases(ctx, listing, thorough):
             for prefix in range(16):
                 for _ in range(nval if prefix % 4 == 0 or thorough else 2):
                     cases.append({"op": "ST", "shape": sh, "bo": bo, "prefix": prefix, "toks": gen_value(r, sh)})
+    # raw slices of every fixed-size primitive (u8 i16 u16 i32 u32 i64 u64 f64) through Vec<E> / &[E] / [E; N] / Cow<[E]> against
+    # the Param tree, which has no memory-copy path: every shape x BOTH byte orders x prefix 0..15 (valid_slice() chooses
+    # between the copy and the element loop by byte order; the two must give the same bytes and read each other's)
+    slice_sizes = (0, 1, 1, 2, 3, 3, 4, 5, 8)      # 0 1 2 4 5 8 go through [E; N], the rest through the unsized [E]
+    for sh in listing["slices"].split(","):
+        for bo in ("le", "be"):
+            for prefix in range(16):
+                for _ in range(nval if thorough else (2 if prefix % 4 == 0 else 1)):
+                    cases.append({"op": "ST", "shape": sh, "bo": bo, "prefix": prefix, "toks": gen_value(r, sh, sizes=slice_sizes)})
+    # the same arrays as enum case payloads: typed Variant, push_variant, derived enum, both macro enums, Param variants
+    desc6 = listing["E6"]
+    for i, (kind, ty) in enumerate(parse_desc(desc6)):
+        for bo in ("le", "be"):
+            for prefix in (range(16) if thorough else sorted(r.sample(range(16), 6))):
+                for _ in range(nval if thorough else 2):
+                    cases.append({"op": "EN", "set": "E6", "desc": desc6, "bo": bo, "prefix": prefix, "case": i,
+                                  "toks": gen_value(r, ty, sizes=slice_sizes)})
     # has_sig: every shape asked for every other body
     for sh in shapes:
         for ot in others:
@@ -487,6 +510,25 @@ def make_cases(ctx, listing, thorough):
                         cases.append({"op": "EO", "set": name, "desc": desc, "bo": bo, "prefix": prefix, "other": ot,
                                       "toks": gen_value(r, ot)})
     return cases
+
+
+def arity_gaps(shapes, others):
+    """has_sig is written once per tuple arity (1..4) and generated per derived struct: for every arity n among the shapes the
+    bodies offered in HS must include a struct of n+1 fields whose first n are those of a shape of arity n, and (n > 1) one of n-1
+    fields that is a prefix of such a shape. Returns the arities for which one is missing."""
+    def fs(name):
+        t = to_tree(name)
+        return [wg.erased(x) for x in t[1]] if t[0] == "r" else None
+    sf = [f for f in map(fs, shapes) if f]
+    of = [f for f in map(fs, others) if f]
+    gaps = []
+    for n in sorted({len(f) for f in sf}):
+        mine = [f for f in sf if len(f) == n]
+        if not any(len(o) == n + 1 and o[:n] in mine for o in of):
+            gaps.append("%d+1" % n)
+        if n > 1 and not any(len(o) == n - 1 and any(f[:n - 1] == o for f in mine) for o in of):
+            gaps.append("%d-1" % n)
+    return gaps
 
 
 def corpus_cases():
@@ -570,14 +612,21 @@ def run(ctx):
         nop = {}
         for c in cases:
             nop[c["op"]] = nop.get(c["op"], 0) + 1
+        slices = set(listing["slices"].split(","))
+        nslice = sum(1 for c in cases if c["op"] == "ST" and c["shape"] in slices)
+        ne6 = sum(1 for c in cases if c["op"] == "EN" and c["set"] == "E6")
         ctx.rule = ("case = (scenario, Rust type / enum, byte order, prefix length 0..15 of preceding u8 parameters, value). "
                     "ST (%d cases this run) = one struct value through tuple, derived struct and the Param tree built three ways (enum literals, the "
                     "params conversion/constructor API, the borrowed *Ref flavours): 5 encodings x 4 readers (tuple, derived, get_param, get_param read "
-                    "back through TryFrom/as_*/into_*); HS (%d) = a derived struct asked to read a body of another (or its own) signature; "
+                    "back through TryFrom/as_*/into_*), of which %d cases are the raw-slice shapes: arrays of u8 i16 u16 i32 u32 i64 u64 f64 as Vec<E>, "
+                    "&[E], [E; N] / [E] and Cow<[E]> (Signature::valid_slice: memory copy in the native byte order, element loop in the other) against "
+                    "the Param tree, every element type in both byte orders at every prefix, also nested (aad, aaq, a{yai}); HS (%d) = a derived struct and the tuple of its fields asked to read a body of another (or its own) signature, among them for every "
+                    "arity 1..4 a struct with one field more and one with one field fewer (the 5-field one is a derived struct: tuples end at 4); "
                     "EN (%d) = one enum case through typed Variant, derived enum, dbus_variant_sig!, dbus_variant_var! and the three Param variants: "
                     "8 encodings x 6 readers, including enum E3 whose case signatures have 255, 256 and 320 bytes "
                     "(beyond 255 all must refuse alike), E4 with several cases of one signature (the first answers) and E5 with short signatures at and "
                     "beyond the 32-level nesting limits (33 nested Vec / tuples: all must refuse alike), push_variant as an eighth encoding; "
+                    "E6 (%d of the EN cases) has the same raw-slice arrays as case payloads (single, unnamed-multiple, named) in both byte orders; "
                     "EC (%d) = enum E1 of all three generators and params::Variant in element position of Vec, HashMap, tuples, Vec of tuples and a "
                     "derived struct, against the Param tree of the same variants: encodings identical, pass validate(), every reader reads every encoding; "
                     "EO (%d) = a variant of a type outside the enum's cases between other parameters, read by the three enums; CV (%d) = every "
@@ -585,7 +634,7 @@ def run(ctx):
                     "The conversions are the identity on the model's abstract value, so C/R are compared with the model's Param API and CV/CF with "
                     "the predicate only. %d cases in all this run (counted; the design's 'about 5,000' for the quick tier was an estimate). Values are boundary-biased; "
                     "maps have at most one entry. non-trivial = everything except CF and HS cases whose other type is not a struct; distinct = distinct case lines"
-                    % (nop.get("ST", 0), nop.get("HS", 0), nop.get("EN", 0), nop.get("EC", 0), nop.get("EO", 0), nop.get("CV", 0), nop.get("CF", 0), len(cases)))
+                    % (nop.get("ST", 0), nslice, nop.get("HS", 0), nop.get("EN", 0), ne6, nop.get("EC", 0), nop.get("EO", 0), nop.get("CV", 0), nop.get("CF", 0), len(cases)))
         impl, model = run_cases(exe, drv, cases)
     finally:
         try:
@@ -603,6 +652,10 @@ def run(ctx):
             ctx.count("prefix%8=" + str(c["prefix"] % 8))
         if c["op"] in ("ST", "HS"):
             ctx.count("shape:" + c["shape"])
+            if c["op"] == "ST" and c["shape"] in slices:
+                for e in "ynqiuxtd":
+                    if "a" + e in c["shape"]:
+                        ctx.count("raw slice of %s, %s, %s" % (e, c["bo"], "non-empty" if ("a %s 0" % e) not in " ".join(c["toks"]) else "some empty"))
         elif c["op"] in ("EN", "EO"):
             ctx.count("set:" + c["set"])
         elif c["op"] == "EC":
